@@ -358,6 +358,14 @@ def eval_bool(t, env):
             x = br[0]
         if isinstance(x, tuple) and x and x[0] == 'agg' and x[2] in VARIANT_INDEX:
             return VARIANT_INDEX[x[2]]
+        if isinstance(x, tuple) and x and x[0] == 'agg' and x[2]:
+            # an explicitly built value of one of the crate's own enums (a private result enum of a helper, ..): its declared variant index
+            F_ = CURRENT_FACTS[0]
+            a_ = F_.adt_by_path.get(x[1]) if F_ is not None else None
+            if a_ is not None:
+                names = [v['name'] for v in a_['variants']]
+                if x[2] in names and all(v.get('discr') in (None, i) for i, v in enumerate(a_['variants'])):
+                    return names.index(x[2])
         if m_call(x, name='from_residual') is not None:
             # the value a failed `?` hands on: Err(..) of a Result, None of an Option
             c = CALLEES.get(x[1])
